@@ -23,6 +23,9 @@ METHODS = [('clean', [('empty', 'C04 C08'), ('wf', 'C04 C08'), ('events', 'C12')
            ('remove', [('val', 'C04 C08'), ('wf', 'C04 C08'), ('frame', 'C04 C08'), ('events', 'C12')])]
 
 
+REVIEW = [E('destructor_site', 'an override of UnprotectedStorage::drop adds a destructor call site: its ordering w.r.t. the bookkeeping (C19) and its exactly-once accounting (C08) need a contract of their own', 'C19 C08')]
+# `ptr::drop_in_place(p)` / `drop(x)`: the destructor runs; nothing else is known (unspecified stub raw_drop)
+DROPRULES = [('N10', r'(?:core::|std::)?ptr::drop_in_place\(', 'raw_drop_in_place(')]
 SGM_REQ = [E('has', 'old(self).has(id)')]
 SGM_ENS = [E('val', '*r == old(self).val(id) && final(self).val(id) == *final(r)', 'C04 C06 C13'),
            E('wf', 'old(self).us_wf() ==> final(self).us_wf()', 'C04'),
@@ -44,6 +47,11 @@ def add_dense(u, extra=''):
         u.fn(ST, [DH, 'fn ' + m], props='C04 C16', group='impl_dense', key='DenseVecStorage::' + m,
              rules=N8 + N19, hint_obligations=TRAIT(m, [(l, (p + ' ' + extra).strip()) for (l, p) in labels]) +
              ([E('tables_first', 'the redirection tables are emptied before the data vector runs the destructors', 'C19')] if m == 'clean' else []), **DENSE.get(m, {}))
+    # an override of the trait's default `drop` (absent on the pinned tree: the default is `self.remove(id);`) has to meet the trait's drop
+    # contract (C04); whether a NEW destructor call site keeps the exception-safety ordering / the exactly-once accounting cannot be a
+    # postcondition: undecided for C19 / C08 while such an override exists
+    u.fn(ST, [DH, 'fn drop'], props='C04 C16', group='impl_dense', key='DenseVecStorage::drop', optional=True, rules=N8 + N19 + DROPRULES,
+         hint_obligations=TRAIT('drop', [('gone', 'C04'), ('wf', 'C04'), ('frame', 'C04'), ('events', 'C12')]), review_if_present=REVIEW)
 
 
 def add_map_kind(u, name):
@@ -66,6 +74,8 @@ def add_map_kind(u, name):
     for (m, labels) in METHODS:
         u.fn(ST, [H, 'fn ' + m], props='C04', group=g, key='%s::%s' % (name, m),
              rules=N8 + [('N20', r'self\.0\[&id\]', 'self.0.index(&id)')], hint_obligations=TRAIT(m, labels))
+    u.fn(ST, [H, 'fn drop'], props='C04', group=g, key='%s::drop' % name, optional=True, rules=N8 + DROPRULES,
+         hint_obligations=TRAIT('drop', [('gone', 'C04'), ('wf', 'C04'), ('frame', 'C04'), ('events', 'C12')]), review_if_present=REVIEW)
     u.fn(ST, ['impl<T> SharedGetMutStorage<T> for %s<T>' % name, 'fn shared_get_mut'], ret='r', props='C04 C06 C13', key=name + '::shared_get_mut',
          impl_header='impl<T> %s<T>' % name, mut_self=True,
          rules=[('N3', r'self\.0\[&id\]\.get\(\)', 'self.0.get_mut(&id).unwrap().get_mut()')],
